@@ -302,6 +302,10 @@ func (db *DB) Merge() error {
 		return errors.New("not support mode `HintBPTSparseIdxMode`")
 	}
 
+	if db.closed {
+		return ErrDBClosed
+	}
+
 	db.isMerging = true
 
 	_, pendingMergeFIds = db.getMaxFileIDAndFileIDs()
@@ -941,25 +945,29 @@ func (db *DB) getBPTRootTxIDPath(fID int64) string {
 }
 
 func (db *DB) getPendingMergeEntries(entry *Entry, pendingMergeEntries []*Entry) []*Entry {
+	bucket := string(entry.Meta.bucket)
+
 	if entry.Meta.ds == DataStructureBPTree {
-		if r, err := db.BPTreeIdx[string(entry.Meta.bucket)].Find(entry.Key); err == nil {
-			if r.H.meta.Flag == DataSetFlag {
-				pendingMergeEntries = append(pendingMergeEntries, entry)
+		if idx, ok := db.BPTreeIdx[bucket]; ok {
+			if r, err := idx.Find(entry.Key); err == nil {
+				if r.H.meta.Flag == DataSetFlag {
+					pendingMergeEntries = append(pendingMergeEntries, entry)
+				}
 			}
 		}
 	}
 
 	if entry.Meta.ds == DataStructureSet {
-		if db.SetIdx[string(entry.Meta.bucket)].SIsMember(string(entry.Key), entry.Value) {
+		if idx, ok := db.SetIdx[bucket]; ok && idx.SIsMember(string(entry.Key), entry.Value) {
 			pendingMergeEntries = append(pendingMergeEntries, entry)
 		}
 	}
 
 	if entry.Meta.ds == DataStructureSortedSet {
 		keyAndScore := strings.Split(string(entry.Key), SeparatorForZSetKey)
-		if len(keyAndScore) == 2 {
+		if idx, ok := db.SortedSetIdx[bucket]; ok && len(keyAndScore) == 2 {
 			key := keyAndScore[0]
-			n := db.SortedSetIdx[string(entry.Meta.bucket)].GetByKey(key)
+			n := idx.GetByKey(key)
 			if n != nil {
 				pendingMergeEntries = append(pendingMergeEntries, entry)
 			}
@@ -967,8 +975,12 @@ func (db *DB) getPendingMergeEntries(entry *Entry, pendingMergeEntries []*Entry)
 	}
 
 	if entry.Meta.ds == DataStructureList {
-		items, _ := db.ListIdx[string(entry.Meta.bucket)].LRange(string(entry.Key), 0, -1)
-		ok := false
+		idx, ok := db.ListIdx[bucket]
+		if !ok {
+			return pendingMergeEntries
+		}
+		items, _ := idx.LRange(string(entry.Key), 0, -1)
+		ok = false
 		if entry.Meta.Flag == DataRPushFlag || entry.Meta.Flag == DataLPushFlag {
 			for _, item := range items {
 				if string(entry.Value) == string(item) {
